@@ -349,7 +349,7 @@ def run(ck, facts):
         ops, fmts = [], []
         for x in C.walk_inl(tool, C.fn_body(fn_), 2, exclude=[fn_["path"]]):
             if x.get("k") == "mcall" and x.get("m") not in ("into", "as_str", "as_ref", "clone", "to_string", "to_owned", "unwrap", "deref"):
-                ops.append((x["m"], tuple(l_ for a_ in x.get("a") or [] for l_ in C.str_lits(a_))))
+                ops.append((x["m"], tuple(re.sub(r"\.d(?=\.h(pp)?$)", "", l_) for a_ in x.get("a") or [] for l_ in C.str_lits(a_))))
             elif x.get("k") == "macro" and x.get("name") == "format":
                 fmts.append(re.sub(r"\.d(?=\.h(pp)?$)", "", re.sub(r"\{[^{}]*\}", "{}", C.macro_fmt_canon(x) or "")))
         return sorted(ops), sorted(fmts)
